@@ -19,6 +19,9 @@ def _prune_inputs(job):
         used.update(s['call']['inputs'])
         if s['call'].get('param'):
             pused.add(s['call']['param'])
+        for m in s['call'].get('mols', []):
+            if m.get('param'):
+                pused.add(m['param'])
     job['inputs'] = {k: v for k, v in job['inputs'].items() if k in used}
     job['params'] = {k: v for k, v in job['params'].items() if k in pused}
     return job
@@ -102,10 +105,18 @@ def minimise(job, res, sc, log, wall=90):
                 if g == ['-p', '@PARAM']:
                     cc['param'] = None
                 cands.append(_prune_inputs(c))
-            if call['kind'] == 'cli' and len(call['inputs']) > 1:
+            if call['kind'] == 'cli' and len(call['inputs']) > 1 and 'mols' not in call:
                 for ii in range(len(call['inputs'])):
                     c = copy.deepcopy(best[0])
                     del c['steps'][si]['call']['inputs'][ii]
+                    cands.append(_prune_inputs(c))
+            if call['kind'] == 'steps' and len(call.get('mols', [])) > 1:
+                for mi in range(len(call['mols'])):
+                    c = copy.deepcopy(best[0])
+                    cc = c['steps'][si]['call']
+                    del cc['mols'][mi]
+                    cc['inputs'] = [m['input'] for m in cc['mols']]
+                    cc['schedule'] = [x - (1 if x > mi else 0) for x in cc['schedule'] if x != mi]
                     cands.append(_prune_inputs(c))
             if call.get('suffix'):
                 c = copy.deepcopy(best[0])
